@@ -621,8 +621,9 @@ func ruleEvalInherit(c *Ctx, rInh string, roles *symtabRoles) {
 						continue
 					}
 					dominated := false
+					inherits := viaDeep(callTo(func(f *ssa.Function) bool { return f == fn }))
 					eachInstr(cc.Parent(), func(ins ssa.Instruction) {
-						if x, ok := ins.(*ssa.Call); ok && x.Call.StaticCallee() == fn && instrDominates(x, cc) {
+						if x, ok := ins.(*ssa.Call); ok && inherits(x) && instrDominates(x, cc) {
 							dominated = true
 						}
 					})
